@@ -28,7 +28,7 @@ import (
 
 // gen: Generated/SdfExpr.v (newLineInfo, lineInfo.minDistance2, lineInfo.winding translated from the
 // current source; Sdf/GenEqPoly.v, an obligation of Props/C04.v) and the MatrixExpr.v it imports
-func main() { Main("C04", check, exprgen.Gen, sdfgen.Gen) }
+func main() { Main("C04", check, exprgen.Gen, sdfgen.Gen, stateGen) }
 
 const imp = "From Sdfx Require Import Sdf.C04Corr.\nOpen Scope float_scope."
 
@@ -1162,6 +1162,9 @@ func check(c *Ctx, r *Report) error {
 		ceval.Add(fmt.Sprintf("(%s,\n %s,\n %s)", vertsTerm(pl.v), tb.String(), CList(pterms)))
 	}
 
+	// ---- build histories in one process (history.go): caller-owned slices re-used after other builds
+	histories(c, r, rng, violate, ctree, ceval, &pid, len(polys)+1000)
+
 	if err := ctree.Write(c.Out); err != nil {
 		return err
 	}
@@ -1173,7 +1176,7 @@ func check(c *Ctx, r *Report) error {
 	r.Coverage["sign_disagreements"] = signDis
 	r.Coverage["value_disagreements"] = valDis
 	r.Coverage["clip_assignment_failures"] = certBad
-	r.Rule = "polygon families (stars incl. the two stars of the earlier repaired defects, convex, rectilinear with collinear/horizontal/vertical edges, combs, thin, 200-gons, shapes with vertices on the quadtree centre lines and with edges lying exactly ON centre and level-2 split lines; both orientations; dyadic, irrational and far-offset coordinates; absolute scale as a dimension: shapes multiplied by 1e-9..1e-3 and 1e3..1e6, facetted outlines with 500..2000 edges of 1e-5..1e-4 length; NEXT TO split lines: star-shaped polygons, staircases and closed lattice loops whose vertices lie 0, +-1..3 ulp, +-1e-12 .. +-2e-9, +-1e-7 from split lines and crossings of split lines of every level, nearly axis-parallel edges crossing many cells, edges through cell corners, at scales 1e-9..1e6, Bezier eggs like examples/bezier egg1) x query points = full grid {vertex and cut-point xs, every quadtree box edge and centre x, bounding box xs, far (10 and 1e6 sizes away)} x {same for y} (rows kept, columns subsampled above the tier's cap), one ulp above/below every vertex level, random points. Oracles per point: sign(quadtree) = sign(brute force) = exact crossing-number sign (rational arithmetic; skipped only where the exact distance is <= 1e-12*scale), | |fast|-|slow| | <= 1e-12 relative + 1e-13*scale, |value| vs exact distance (1e-12 relative + 1e-12*scale). non-trivial = every case; distinct by polygon hash and exact point bits."
+	r.Rule = "polygon families (stars incl. the two stars of the earlier repaired defects, convex, rectilinear with collinear/horizontal/vertical edges, combs, thin, 200-gons, shapes with vertices on the quadtree centre lines and with edges lying exactly ON centre and level-2 split lines; both orientations; dyadic, irrational and far-offset coordinates; absolute scale as a dimension: shapes multiplied by 1e-9..1e-3 and 1e3..1e6, facetted outlines with 500..2000 edges of 1e-5..1e-4 length; NEXT TO split lines: star-shaped polygons, staircases and closed lattice loops whose vertices lie 0, +-1..3 ulp, +-1e-12 .. +-2e-9, +-1e-7 from split lines and crossings of split lines of every level, nearly axis-parallel edges crossing many cells, edges through cell corners, at scales 1e-9..1e6, Bezier eggs like examples/bezier egg1) x query points = full grid {vertex and cut-point xs, every quadtree box edge and centre x, bounding box xs, far (10 and 1e6 sizes away)} x {same for y} (rows kept, columns subsampled above the tier's cap), one ulp above/below every vertex level, random points. Oracles per point: sign(quadtree) = sign(brute force) = exact crossing-number sign (rational arithmetic; skipped only where the exact distance is <= 1e-12*scale), | |fast|-|slow| | <= 1e-12 relative + 1e-13*scale, |value| vs exact distance (1e-12 relative + 1e-12*scale). BUILD HISTORIES in one process (history.go): 2..3 caller-owned slots (vertex buffer + []*Line2, with and without spare capacity, segments in polygon order or shuffled) x polygons of 4..400 edges x scripts of Mesh2D / Mesh2DSlow / Polygon2D builds, re-use of a slot for the same and for another polygon, re-evaluation of earlier shapes and alternate evaluation of two live shapes; after every op the caller's data is bit-identical (pointer identity, values, spare capacity), every shape built at any step satisfies the exact oracles and fast = slow and answers bit for bit like the first shape built from the same segments, every earlier shape answers (and dumps) as it did when built; the last quadtree built from a re-used slot of some histories also goes through the model (cases_tree / cases_eval). non-trivial = every case; distinct by polygon hash and exact point bits (histories: history hash, step, point)."
 	r.Trusted = append(r.Trusted,
 		"hand model coq/Sdf/Poly.v tied by differential execution at FOps: the model of Mesh2D/qtBuild/lineIntersect/lineClip (math.Nextafter = C04Corr.fnextafter) rebuilds the dumped quadtree of every tested polygon bit for bit; eval_fast on the dumped tree and eval_slow on the segments reproduce Evaluate (sign exactly, value within fclose; absolute 2^-40*scale on the boundary)",
 		"quadtree dump hook sdf/verif_hooks_c04.go (copies the private fields)",
